@@ -147,9 +147,6 @@ func ReadFrom(r io.Reader) (*Index, error) {
 	if err != nil {
 		return nil, err
 	}
-	if n == 0 {
-		return nil, nil
-	}
 
 	err = readTabixHeader(r, &idx)
 	if err != nil {
@@ -207,8 +204,12 @@ func readTabixHeader(r io.Reader, idx *Index) error {
 	if err != nil {
 		return fmt.Errorf("tabix: failed to read name lengths: %w", err)
 	}
-	if n < 1 {
+	if n < 0 {
 		return fmt.Errorf("tabix: invalid name length: %d", n)
+	}
+	if n == 0 {
+		// An index without references holds no names.
+		return nil
 	}
 	nameBytes := make([]byte, n)
 	_, err = io.ReadFull(r, nameBytes)
